@@ -899,12 +899,19 @@ def mon_c08(sc, res):
                     elif len(mine) != 1 and not is_id(rid):
                         decl.pop(cget(params, b"path"), None)    # outcome unknown: stop judging this path
                         decl[cget(params, b"path")] = None
+        # a connection that authenticates in this step changes its identity somewhere inside the step: what it is sent and what
+        # is routed for it in this step is not attributed to either identity
+        changing = set()
+        for c, top in reqs:
+            for r in flatten_requests(top)[0]:
+                if cget(r, b"method") == b"authenticate":
+                    changing.add(c)
         if auth:
             for d, ok, v in sends:
                 if isinstance(v, tuple) and v and v[0] == "unparsable":
                     continue
                 a = who.get(d)
-                if a == "unknown":
+                if a == "unknown" or d in changing:
                     continue
                 mine = {"fetch": _names(cget(a, b"fetchGroups")) if a is not None else set(),
                         "set": _names(cget(a, b"setGroups")) if a is not None else set(),
@@ -937,7 +944,7 @@ def mon_c08(sc, res):
                     if len(set(callers)) == 1:
                         c, m = callers[0]
                         ca = who.get(c)
-                        if ca == "unknown":
+                        if ca == "unknown" or c in changing:
                             continue
                         key = b"setGroups" if m == b"set" else b"callGroups"
                         have = _names(cget(ca, key)) if ca is not None else set()
